@@ -809,7 +809,7 @@ func run(c *lib.Ctx) {
 	setup()
 	debug.SetGCPercent(200) // many small short-lived objects, small live heap
 	// depth per root: {new, from row} x {passive, active observer}
-	depths := lib.Pick(c, []int{5, 5, 5, 5}, []int{7, 6, 6, 6})
+	depths := lib.Pick(c, []int{5, 4, 5, 4}, []int{7, 6, 6, 6})
 	c.Set("events", len(events))
 	c.Set("max_depth", depths)
 	names := []string{}
@@ -929,6 +929,6 @@ func main() {
 			"observer expectation: one notification for the changed member and for each rule field that held a value and was invalidated by the change; rule fields on a tracked dependency path that hold no value or are already invalid may also be reported; nothing else, nothing twice",
 			"verdict is for the enumerated events, values and depth only",
 		},
-		QuickBudget: 70, ThoroughBudget: 700,
+		QuickBudget: 100, ThoroughBudget: 1200,
 		Run: run, Replay: replay})
 }
